@@ -36,7 +36,23 @@ def tree_pda(depth, eps="ε"):
     return U.make_pda(Q, "a", "XY$", trans, "i", ["acc"], eps)
 
 
+# state names the normal forms generate themselves (fresh_state(Q, hint) -> hint1, hint2, ...)
+CLASH_NAMES = [["M1", "M2", "M3", "M4"], ["q_accept1", "q_initial1", "q_drain1", "M1"], ["M2", "q_accept2", "M1", "q_drain2"],
+               ["M", "M10", "M11", "M01"]]
+
+
 def build(src):
+    P = _build(src)
+    if src.get("qnames") is not None:
+        pool = CLASH_NAMES[src["qnames"] % len(CLASH_NAMES)]
+        Q = sorted(P.Q)
+        if len(Q) <= len(pool):
+            rot = src["qnames"] // len(CLASH_NAMES)
+            P = U.rename_pda(P, {q: pool[(i + rot) % len(pool)] for i, q in enumerate(Q)})
+    return P
+
+
+def _build(src):
     eps = src.get("eps", "ε")
     if src["kind"] == "pda_small":
         pool = pool2(eps)
@@ -66,6 +82,26 @@ def build(src):
             trans.append((rng.choice(Q), eps, eps, rng.choice(Q), eps))
         F = [q for q in Q if rng.random() < 0.4]
         return U.make_pda(Q, "ab", "X", trans, Q[0], F, eps)
+    if src["kind"] == "pda_eps_graph":
+        # 4-8 states, many stack-free epsilon moves (cycles AND chains), a few pushes/pops of one symbol and a few
+        # letter moves: finite closures of 4-20 configurations that need as many pops as they have members
+        rng = random.Random(src["seed"])
+        Q = U.names(rng.randint(4, 8), "s")
+        trans = []
+        order = Q[:]
+        rng.shuffle(order)
+        for p, q in zip(order, order[1:]):
+            if rng.random() < 0.8:
+                trans.append((p, eps, eps, q, eps))
+        for _ in range(rng.randint(1, 4)):
+            trans.append((rng.choice(Q), eps, eps, rng.choice(Q), eps))          # back edges: cycles
+        for _ in range(rng.randint(0, 2)):
+            p, q = rng.choice(Q), rng.choice(Q)
+            trans.append((p, eps, eps, q, "X") if rng.random() < 0.5 else (p, eps, "X", q, eps))
+        for _ in range(rng.randint(1, 3)):
+            trans.append((rng.choice(Q), "a", rng.choice([eps, eps, "X"]), rng.choice(Q), rng.choice([eps, eps, "X"])))
+        F = [order[-1]] if rng.random() < 0.6 else [q for q in Q if rng.random() < 0.3]
+        return U.make_pda(Q, "a", "X", sorted(set(trans)), order[0], F, eps)
     if src["kind"] == "pda_trans":
         return U.make_pda(src["Q"], src["S"], src["G"], [tuple(t) for t in src["T"]], src["q0"], src["F"], eps)
     raise ValueError(src)
